@@ -44,7 +44,7 @@ func zzC05Prop(name string, how int, staticVal, varName string) string {
 func VerifC05_Props() {
 	howA := zzChoice("howA", 5)
 	howB := zzChoice("howB", 5)
-	bKind := zzChoice("bkind", 4)
+	bKind := zzChoice("bkind", 5)
 	includerHasA := zzBool("includerHasA")
 	twice := zzBool("twice")
 	propBoth := zzBool("propBoth")
@@ -64,6 +64,9 @@ func VerifC05_Props() {
 	case 3:
 		data["vb"] = []string{"x", "y"}
 		bStr, bType = "[x y]", "[]string"
+	case 4: // a string that begins like a JSON value and goes on: it is a string
+		data["vb"] = "[1] Intro {} end"
+		bStr, bType = "[1] Intro {} end", "string"
 	}
 	if includerHasA {
 		data["a"] = "INCLUDER-A"
